@@ -443,7 +443,10 @@ def build_spec(script, behaviour, client, rel):
                 if o[0] == "send_latest" and isinstance(o[2], bytes) and len(o[2]) == 2500:
                     st.insert(j, ("call", _set_threshold))
                     break
+    # both TSN spaces (and with them the RE-CONFIG request sequence numbers, which start at the initial TSN) wrap during the
+    # program: the second stream reset of a side carries request sequence 0 after 2^32-1
     spec = dict(setup="explored", channels=chans, prestart=prestart, script=steps, anchors=anchors, client=client,
+                tsn={"A": 2 ** 32 - 1, "B": 2 ** 32 - 1},
                 reactive={"B": "echo_close"} if behaviour == "echo_close" else {}, horizon=1500.0, max_points=600)
     return spec
 
